@@ -987,3 +987,84 @@ Theorem C05_db_exec_remove_isolated_node_preserves_stored_db :
                         sdepth sp' = sdepth sp /\ frame (hp sp) (hp sp') (sd_foot root w) (sd_foot root w')).
 Proof. exact so_exec_remove_isolated_node_stored. Qed.
 Print Assumptions C05_db_exec_remove_isolated_node_preserves_stored_db.
+
+(* ---- the graph side conditions FROM C08's well-formedness (theories/StoredDbOpsLinkWf.v) ----
+   so_edge_ok (the two degree counters insert_edge increments stay i64 values) and so_remove_edge_ok (the edge, its source /
+   target and every slot the two unlink walks visit are inside the arrays, the walks end within `capacity` rounds, the
+   decremented counters stay i64 values) hold of every graph satisfying C08's wf (what every history of graph.rs operations
+   from graph_new satisfies: C08_history_refines; a component of Inv) whose capacity is below 2^60; so do the index bounds of
+   the ids insert_node / insert_edge hand out and of every existing id.  With C05_db_graph_side_condition_from_wf nothing
+   about the graph is assumed any more beyond wf and the capacity bound. *)
+From Agdb Require Import StoredDbOpsLinkWf.
+
+Theorem C05_db_edge_side_conditions_from_wf :
+  forall g, GraphSim.wf g -> (Graph.capacity g < 1152921504606846976)%Z ->
+    (forall f t, (0 < f)%Z -> (0 < t)%Z -> is_node g f = true -> is_node g t = true -> so_edge_ok g f t) /\
+    (forall e, (e < 0)%Z -> so_remove_edge_ok g e) /\
+    so_index_ok (cg_as_u64 (fst (insert_node g))) /\ so_index_ok (cg_as_u64 (- fst (get_free_index g))) /\
+    (forall id, graph_index g id = true -> so_index_ok (cg_as_u64 id)).
+Proof. exact wf_edge_side_conditions. Qed.
+Print Assumptions C05_db_edge_side_conditions_from_wf.
+
+(* ---- COVERED QUERIES from the invariant, and their histories (theories/StoredDbOpsLinkHist.v) ----
+   so_cq = the covered query shapes: CqInsertNode l (insert().nodes().values([l])), CqInsertValues id l
+   (insert().values([l]).ids(id)), CqInsertEdge f t (insert().edges().from(f).to(t)), CqRemove id (remove().ids(id));
+   cq_query = the query of Queries.v, cq_run = the storage program (returning the id of the element it created).
+   so_covered d c (every clause a decidable statement about d and c alone):
+     capacity (gr d) < 2^60;
+     CqInsertNode l      so_kvs_ok: at each pair the key is not indexed (idx_find = None), the pair is valid (el_valid law_dbkv:
+                         i64 range, valid UTF-8, lengths < 2^60), the element's vector stays below 2^64 bytes
+     CqInsertValues id l graph_index (gr d) id = true; so_iors_ok: the same, and a replaced pair's key is not indexed either
+     CqInsertEdge f t    f, t > 0 existing nodes
+     CqRemove id         id an edge, or a node with from = to = 0 (no edges) and no alias; none of its keys indexed; AT LEAST
+                         ONE PROPERTY (then the file provably holds its property vector: so_slot_valid; for an element without
+                         properties that fact lives in the witness only and the theorems above do not expose it)
+   C05_db_covered_query_preserves_stored_db: wf (gr d) and so_covered d c suffice — the program ends in a store holding
+   `fst (exec rv d q)` and returns the id `snd (exec rv d q)` reports (cq_out).
+   C05_db_covered_histories_preserve_stored_db_partial: for EVERY list l of queries each covered in the database it runs on
+   (so_covered_all: so_covered, query_ok = no key twice in an insert list — the side condition of C09 / C13 —, capacity
+   < 2^60 afterwards), from a stored database satisfying HInv (Inv, db_ok, empty undo stack: what every history from
+   db_new satisfies, C13_history_invariant) the programs in sequence end in a store holding the fold of `exec rv_fixed`
+   (cq_model; cq_model_fold), return the ids exec reports, and HInv holds again.
+   _partial — NOT COVERED: aliases (insert nodes / values with aliases, insert / remove aliases, removal of an aliased node),
+   indexes (insert / remove index, any indexed key), cascading removals (a node with edges), removal of an element without
+   properties, multi-element queries (count > 1, several ids, search-selected ids, Multi values, each), failing queries
+   (rollback), transactions of several queries, remove values. *)
+From Agdb Require Import StoredDbOpsLinkHist StoredDbOpsLinkExample.
+From Agdb Require HistoryAtomicProofs QueryInvProofs.
+
+Theorem C05_db_covered_query_preserves_stored_db :
+  forall (fl : bool) rv root d w h c sp,
+    stored_db_w (hp sp) root d w -> so_handles h w -> GraphSim.wf (gr d) -> so_covered d c ->
+    cwp fl (cq_run h c) sp
+        (fun r sp' => exists h' w', r = CrOk (h', cq_out (snd (Queries.exec rv d (cq_query c)))) /\
+                        stored_db_w (hp sp') root (fst (Queries.exec rv d (cq_query c))) w' /\ so_handles h' w' /\
+                        sdepth sp' = sdepth sp /\ frame (hp sp) (hp sp') (sd_foot root w) (sd_foot root w')).
+Proof. exact so_cq_stored. Qed.
+Print Assumptions C05_db_covered_query_preserves_stored_db.
+
+Theorem C05_db_covered_histories_preserve_stored_db_partial :
+  forall (fl : bool) root l d w h sp,
+    stored_db_w (hp sp) root d w -> so_handles h w -> HistoryAtomicProofs.HInv d -> so_covered_all rv_fixed d l ->
+    cwp fl (cq_runs h l) sp
+        (fun r sp' => exists h' w', r = CrOk (h', snd (cq_model rv_fixed d l)) /\
+                        stored_db_w (hp sp') root (fst (cq_model rv_fixed d l)) w' /\ so_handles h' w' /\
+                        HistoryAtomicProofs.HInv (fst (cq_model rv_fixed d l)) /\
+                        sdepth sp' = sdepth sp /\ frame (hp sp) (hp sp') (sd_foot root w) (sd_foot root w')).
+Proof. exact so_cqs_stored. Qed.
+Print Assumptions C05_db_covered_histories_preserve_stored_db_partial.
+
+Theorem C05_db_covered_model_is_exec_fold :
+  forall rv l d, fst (cq_model rv d l) = fold_left (fun a c => fst (Queries.exec rv a (cq_query c))) l d.
+Proof. exact cq_model_fold. Qed.
+Print Assumptions C05_db_covered_model_is_exec_fold.
+
+(* non-vacuity on the example database of C05_db_sample (nodes 1, 2, edge -3 from 1 to 2 with one property, an index on a
+   key of node 1): its graph is well-formed, the removal of the edge -3 and the insertion of an edge from 2 to 1 are covered,
+   so is the two-query history, and exec reports the new edge -4 *)
+Example C05_db_sample_covered :
+  GraphSim.wf (gr sx_db) /\ so_covered sx_db (CqRemove (-3)) /\ so_covered sx_db (CqInsertEdge 2 1) /\
+  so_covered_all rv_fixed sx_db [CqInsertEdge 2 1; CqRemove (-3)] /\
+  snd (cq_model rv_fixed sx_db [CqInsertEdge 2 1; CqRemove (-3)]) = [Some (-4)%Z; None].
+Proof. exact sx_link_sample. Qed.
+Print Assumptions C05_db_sample_covered.
